@@ -307,7 +307,9 @@ func (p DHCP4) AppendOptions(options DHCP4Options, order []byte) int {
 		byte(DHCP4OptionStaticRoute),
 		byte(DHCP4OptionRouter),
 	}
-	order = append(order, optionsReplyParametersList...)
+	// the subnet mask goes first: it must precede the router option whatever order the client
+	// listed them in its parameter request list (RFC 2132 section 3.3)
+	order = append(append([]byte{byte(DHCP4OptionSubnetMask)}, order...), optionsReplyParametersList...)
 
 	// first copy parameters in order
 	for _, code := range order {
